@@ -136,6 +136,14 @@ func (rc *realController) Finalize(release *v1beta1.BatchRelease) error {
 	}
 	isUnderRolloutControl := rc.object.Annotations[util.BatchReleaseControlAnnotation] != "" && rc.object.Spec.Paused
 	if !isUnderRolloutControl {
+		// the release ends before it ever claimed the Deployment: only the webhook's pause is in place; lift it like
+		// the other workload kinds do, or the Deployment stays paused after the Rollout is gone
+		if release.Spec.ReleasePlan.BatchPartition == nil && rc.object.Spec.Paused && rc.object.DeletionTimestamp == nil &&
+			rc.object.Annotations[util.BatchReleaseControlAnnotation] == "" {
+			patchData := patch.NewDeploymentPatch()
+			patchData.UpdatePaused(false)
+			return rc.client.Patch(context.TODO(), util.GetEmptyObjectWithKey(rc.object), patchData)
+		}
 		return nil // No need to finalize again.
 	}
 
